@@ -392,6 +392,12 @@ func c14One(c *Ctx, m *Model, schemaEnc interface{}, root *xNode, q *xQuery, mut
 		rep.Fail("impl_ne_spec", c14KF(cs, mValidate, mNoConf), cs, map[string]interface{}{"what": "a query accepted by validation fails at execution on error-free data (type/shape reason)", "error": firstN(execErr.Error(), 300), "model": resp})
 		return
 	}
+	if accepted && mValidate && !mNoConf {
+		// every selection is well-formed on its own, but one response key of one object stands for two different
+		// fields: whatever is executed, the response cannot hold the object's fields "exactly as selected"
+		rep.Fail("impl_ne_spec", c14KF(cs, mValidate, mNoConf), cs, map[string]interface{}{"what": "validation accepted a query in which one response key of an object stands for two different fields", "response": out, "model": resp})
+		return
+	}
 	if accepted != mAccept {
 		rep.Fail("impl_ne_model", c14KF(cs, mValidate, mNoConf), cs, map[string]interface{}{"what": "validation verdict differs from the model", "impl_accepted": accepted, "impl_reject": rejectMsg, "model": resp})
 		return
@@ -494,6 +500,8 @@ func runC14(c *Ctx) error {
 		}
 		c14One(c, m, schemaEnc, root, q, mutation)
 	}
+	// the Go type shapes the builder accepts, with zero / empty / nil values, against the schema advertised for them
+	c14Zoo(c, c.Rng.Fork(), c.N(150, 6000))
 	return nil
 }
 
